@@ -487,14 +487,24 @@ def concur_jobs(n, curve=None, weight=4, deep=False):
     return [{"name": f"concurrent/{i}", "part": "concurcase", "idx": i, "curve": curve, "weight": weight, **({"deep": True} if deep else {})} for i in range(n)]
 
 
-def run_concur_job(job, scens, run_case, prop, files):
+def run_concur_job(job, scens, run_case, prop, files, alphabet=None):
     """scens[idx] = {"threads": [(kind, case), (kind, case)], "warm": [(kind, case), ...]} - every interleaving (at most 1 / 2
     preemptions, line granularity of `files`) of the ordinary single-case checks, each execution on a fresh process image"""
     from vf import concur
     acc = Acc(job)
     scen = dict(scens[job["idx"]])
     if not scen.get("post"):
-        scen["post"] = list(scen["threads"])       # the same calls once more, sequentially, after the threads have finished
+        # sequential follow-up calls after the threads have finished: the same calls once more, then the rest of the property's
+        # operation alphabet (a race may leave a structure that the racing calls never consult - a doubled table, a cache line
+        # keyed by another input - and that only another operation reads)
+        scen["post"] = list(scen["threads"])
+        if alphabet:
+            seen = [json.dumps(t, sort_keys=True, default=str) for t in scen["post"]]
+            for o in alphabet:
+                k = json.dumps(list(o), sort_keys=True, default=str)
+                if k not in seen and not o[0].startswith("env-") and o[0] not in ("fault", "poke", "bad", "generic") and len(scen["post"]) < 14:
+                    seen.append(k)
+                    scen["post"].append(o)
     # quick: <= 1 preemption, offered at the first 2 executions of a line.  thorough: two passes - <= 1 preemption at the first
     # 6 executions of a line, and <= 2 preemptions at the first execution of a line (capped at 40 000 executions, reported)
     passes = [(1, 2, 20_000)] if job["tier"] == "quick" else [(1, 6, 40_000), (2, 1, 40_000)]
